@@ -1083,3 +1083,31 @@ Proof.
   split; [vm_compute; intuition discriminate|]. split; [lia|]. split; [vm_compute; reflexivity|].
   vm_compute. discriminate.
 Qed.
+
+(* ------------------------------------------------------------------ operand order and scale mode *)
+(* the rule the generator implements: whatever the operand order, the decoded (operand order, scale mode) pair
+   selects for the 32-bit rescale exactly the feature map the reference chose (the one with the smaller scale) *)
+Lemma scale_mode_denotes_lemma (reversed ifm_smaller : bool) :
+  rescaled_is_ifm reversed (scale_mode reversed (op_to_scale_ref ifm_smaller)) = ifm_smaller.
+Proof. destruct reversed, ifm_smaller; reflexivity. Qed.
+
+(* swapping the operands swaps the mode; leaving the mode alone selects the other feature map *)
+Lemma scale_mode_swap_lemma (r : bool) m :
+  m = scale_OPa \/ m = scale_OPb ->
+  scale_mode (negb r) m = swap_operand (scale_mode r m) /\
+  rescaled_is_ifm (negb r) (scale_mode r m) = negb (rescaled_is_ifm r (scale_mode r m)).
+Proof. intros [-> | ->]; destruct r; split; reflexivity. Qed.
+
+Lemma scale_mode_field_lemma sg bits b16 (r sm : bool) :
+  bits_ok bits = true ->
+  (ifm_precision_field sg bits b16 (scale_mode r (op_to_scale_ref sm)) / 256) mod 4 = scale_mode r (op_to_scale_ref sm).
+Proof.
+  intros Hb. assert (Hx : 0 <= scale_mode r (op_to_scale_ref sm) <= 2) by (destruct r, sm; vm_compute; split; discriminate).
+  destruct (precision_fits sg bits false b16 _ Hb Hx) as [H _]. unfold ifm_prec_ok in H.
+  repeat (apply andb_prop in H as [H ?]). apply Z.eqb_eq. assumption.
+Qed.
+
+Example scale_mode_example :
+  scale_mode true (op_to_scale_ref true) = 2 /\ scale_mode false (op_to_scale_ref true) = 1 /\
+  rescaled_is_ifm true 2 = true /\ rescaled_is_ifm true 1 = false.
+Proof. repeat split; reflexivity. Qed.
